@@ -73,7 +73,9 @@ func MultiBucket(fs afero.Fs, opts ...MultiOption) (*MultiBucketBackend, error) 
 		}
 		b.configOnly.metaFs = metaFs
 	}
-	b.metaStore = newMetaStore(b.configOnly.metaFs, modTimeFsCalc(fs))
+	b.metaStore = newMetaStore(b.configOnly.metaFs, func(bucket, object string) (afero.Fs, string) {
+		return b.bucketFs, path.Join(bucket, object)
+	}, modTimeFsCalc(fs))
 
 	return b, nil
 }
